@@ -4,7 +4,7 @@ open Lean DU Assertion
 
 /-
   kind "assertion": one AssertionHandler over a run of N events.
-  input : n, ptypes [type of node 0, …], N, eager (true = repaired bookkeeping, patches/F18.patch),
+  input : n, ptypes [class of node 0's protocol, …], sub [[c, T], …] (optional: class c derives from T), N, eager (true = repaired bookkeeping, patches/F18.patch),
           specs [{kind: alwaysProto|eventuallyProto, T, pred: [[value per node] per iteration]} |
                  {kind: alwaysSim|eventuallySim, pred: [value per iteration]}]
   output: executed, verdict ("passed" | "failedAtEnd" | ["failedAfter", i])
@@ -37,7 +37,13 @@ def runOne (j : Json) : Except String Json := do
   let N ← (← field j "N").getNat?
   let eager ← (← field j "eager").getBool?
   let specs ← (← (← field j "specs").getArr?).toList.mapM specOfJson
-  let ns : Nodes := ⟨n, fun node => ptypes.getD node 0⟩
+  -- optional "sub": [[c, T], …] = class c derives from class T (given transitively closed)
+  let sub : Array (Nat × Nat) ← match j.getObjVal? "sub" with
+    | .ok a => (← a.getArr?).mapM (fun p => do
+        let xs ← p.getArr?
+        pure ((← (xs.getD 0 Json.null).getNat?), (← (xs.getD 1 Json.null).getNat?)))
+    | .error _ => pure #[]
+  let ns : Nodes := Nodes.ofClasses n (fun node => ptypes.getD node 0) (fun c T => sub.contains (c, T))
   let res := Assertion.run ns eager specs N
   let verdict := match res.verdict with
     | .passed => Json.str "passed"
